@@ -3,7 +3,7 @@ from engines.arena_prop import run_arena_property
 
 def run(ctx):
     return run_arena_property(ctx, ["BumpProof.Props.C05", "BumpProof.Props.Hist@C05", "BumpProof.Props.Targets@C05"],
-        runs_quick=[('ledger', 150, 100), ('faults', 60, 100)],
+        runs_quick=[('ledger', 500, 100), ('faults', 250, 100)],
         runs_thorough=[('ledger', 6000, 200), ('faults', 3000, 200), ('general', 2000, 200)],
         fields=(0, 1, 5), extra_oracles=(),
         note='ledger theorems (each chunk released exactly once, memory fitting) on the model + request-sequence correspondence + base-allocator ledger/guard-byte oracle')
